@@ -51,10 +51,10 @@ ASSUMPTIONS = [
     "no n_particles, no tomo_mask (outside the statement)",
 ]
 COLS = gens.COLS
-CLASSES = ["cbd_clusters", "sx_blobs", "cbd_lower_geom1", "sx_noise_dense", "cbd_overlapping_groups", "sx_noncubic",
-           "cbd_chain", "sx_integer_diameter", "cbd_shift_decisive", "sx_extreme_diameter", "cbd_extreme_d", "sx_few_supra",
-           "cbd_near_tie", "sx_faces", "cbd_small_n", "sx_files", "cbd_odd_labels", "sx_sigma", "cbd_equal_scores_apart",
-           "sx_negative"]
+# order: list (cheap) and map (expensive) classes interleaved so that every shard (case index mod 2, 4, 16) gets both kinds
+CLASSES = ["cbd_clusters", "sx_blobs", "sx_faces", "cbd_lower_geom1", "sx_noise_dense", "cbd_overlapping_groups", "cbd_chain",
+           "sx_files", "cbd_shift_decisive", "sx_integer_diameter", "sx_noncubic", "cbd_extreme_d", "sx_negative", "cbd_near_tie",
+           "cbd_small_n", "sx_sigma", "cbd_odd_labels", "sx_extreme_diameter", "sx_few_supra", "cbd_equal_scores_apart"]
 SX_COLS = ["x", "y", "z", "score", "phi", "theta", "psi"]
 ANGLE_TOL = 1e-9        # degrees: pandas' CSV float parser is not correctly rounded (1 ulp off on 17-digit decimals)
 
@@ -69,10 +69,10 @@ def plan(tier):
                     min_evals={"cbd_rows": 800, "cbd_separated": 800, "cbd_dominated": 800, "cbd_isolation": 800,
                                "cbd_metamorphic": 300, "sx_threshold": 500, "sx_score": 500, "sx_angles": 500,
                                "sx_separated": 500, "sx_dominated": 500, "sx_relational": 250})
-    return dict(n_cases=6400, shards=16, classes=CLASSES, timeout_s=3000, env=ENV,
-                min_evals={"cbd_rows": 12000, "cbd_separated": 12000, "cbd_dominated": 12000, "cbd_isolation": 12000,
-                           "cbd_metamorphic": 5000, "sx_threshold": 8000, "sx_score": 8000, "sx_angles": 8000,
-                           "sx_separated": 8000, "sx_dominated": 8000, "sx_relational": 4000})
+    return dict(n_cases=3200, shards=16, classes=CLASSES, timeout_s=3000, env=ENV,
+                min_evals={"cbd_rows": 8000, "cbd_separated": 8000, "cbd_dominated": 8000, "cbd_isolation": 12000,
+                           "cbd_metamorphic": 2200, "sx_threshold": 8000, "sx_score": 8000, "sx_angles": 8000,
+                           "sx_separated": 8000, "sx_dominated": 8000, "sx_relational": 1800})
 
 
 # =====================================================================================================
@@ -628,7 +628,7 @@ def _gen_sx(ctx, rng, cls, big):
         f = (f + float(rng.choice([0.0, -0.2, 3.0]))) * sc
     S32 = _plateau_free32(f, rng)
     srt = np.sort(S32.ravel().astype(np.float64))
-    cap = 20000 if big else 5000
+    cap = 12000 if big else 5000
     dia = _generic_diameter(rng, 1.1, 9.0)
     thr_kind = "scores"
     sigma = None
